@@ -6,6 +6,7 @@ arguments of RESTORE as redigo writes them) were written by different builders w
 import RSVerif.Spec.Resp
 import RSVerif.Spec.MiniRedisC02
 import RSVerif.Spec.Slot
+import RSVerif.Spec.Filter
 namespace RSVerif.Properties.C10
 open RSVerif
 
@@ -60,4 +61,55 @@ theorem itoa_is_fmtNat (n : Nat) : Spec.Slot.itoa n = Spec.Resp.fmtNat n := by
   have := core_spec (n + 1) n [] (by omega)
   simp only [List.map_nil, List.append_nil] at this
   exact this
+
+private noncomputable def E (l : List Char) : Bytes := l.utf8Encode.data.toList
+
+private theorem E_cons (c : Char) (l : List Char) : E (c :: l) = E [c] ++ E l := by
+  unfold E; rw [List.utf8Encode_cons]; simp
+
+private theorem E_digit (d : Nat) (h : d < 10) : E [Nat.digitChar d] = [Spec.Resp.digitChar d] := by
+  have : d = 0 ∨ d = 1 ∨ d = 2 ∨ d = 3 ∨ d = 4 ∨ d = 5 ∨ d = 6 ∨ d = 7 ∨ d = 8 ∨ d = 9 := by omega
+  rcases this with h | h | h | h | h | h | h | h | h | h <;> subst h <;> decide
+
+private theorem coreE (f : Nat) : ∀ (n : Nat) (acc : List Char), n < f →
+    E (Nat.toDigitsCore 10 f n acc) = Spec.Resp.natDigitsF f n ++ E acc := by
+  induction f with
+  | zero => intro n acc h; omega
+  | succ f ih =>
+    intro n acc h
+    unfold Nat.toDigitsCore Spec.Resp.natDigitsF
+    by_cases h10 : n < 10
+    · have hd : n / 10 = 0 := by omega
+      have hm : n % 10 = n := by omega
+      simp only [hd, if_true, h10, hm]
+      rw [E_cons, E_digit n h10]
+    · have hd : n / 10 ≠ 0 := by omega
+      simp only [hd, if_false, h10]
+      rw [ih (n / 10) _ (by omega), E_cons, E_digit (n % 10) (by omega)]
+      simp
+
+private theorem reprE (n : Nat) : (Nat.repr n).toByteArray.data.toList = Spec.Resp.fmtNat n := by
+  unfold Nat.repr Spec.Resp.fmtNat Nat.toDigits
+  rw [String.toByteArray_ofList]
+  have := coreE (n + 1) n [] (by omega)
+  simpa [E] using this
+
+/-- the decimal text of the C06 specification (database lists; via `Int.repr`) is the C10 number text, for every integer -/
+theorem filter_decimal_is_fmtInt (i : Int) : Spec.Filter.decimal i = Spec.Resp.fmtInt i := by
+  unfold Spec.Filter.decimal Spec.Resp.fmtInt Int.repr
+  cases i with
+  | ofNat m =>
+    have : ¬ (Int.ofNat m < 0) := by simp
+    simp only [this, if_false]
+    exact reprE m
+  | negSucc m =>
+    have : Int.negSucc m < 0 := Int.negSucc_lt_zero m
+    simp only [this, if_true]
+    rw [String.toByteArray_append]
+    simp only [ByteArray.data_append, Array.toList_append]
+    rw [reprE]
+    rfl
+
+example : Spec.Filter.decimal (-15) = [45, 49, 53] := by rw [filter_decimal_is_fmtInt]; decide
+
 end RSVerif.Properties.C10
